@@ -670,7 +670,7 @@ pub struct Case {
 const VAR_NAMES: &[&str] = &["a", "b", "i", "j", "k", "m", "t", "v", "w", "n", "cnt", "_u", "x1", "endx", "loop1"];
 const IN_NAMES: &[&str] = &["A", "B", "D", "CLK", "EN", "S0", "IN_3", "ALU-~RESET", "é"];
 const OUT_NAMES: &[&str] = &["Q", "Y", "R", "DONE", "OUT", "q2", "Flag", "Σ"];
-const BI_NAMES: &[&str] = &["BUS", "IO", "P"];
+const BI_NAMES: &[&str] = &["BUS", "IO", "P", "IO2", "BU"];
 
 fn is_while_counter(v: &str) -> bool {
     v.len() >= 2 && v.starts_with('w') && v[1..].chars().all(|c| c.is_ascii_digit())
@@ -752,6 +752,18 @@ impl<'a> Gen<'a> {
             let o = self.r.pick(UNOPS).0;
             let e = self.expr(depth - 1, allow_vars);
             return GExpr::Un(o, Box::new(e));
+        }
+        if (self.r.below(100) as u32) < self.p.p_div {
+            // the two operand pairs on which division itself is delicate
+            let o = *self.r.pick(&["div", "rem"]);
+            let min = GExpr::Bin("shl", Box::new(GExpr::Num(1)), Box::new(GExpr::Num(63)));
+            let l = if self.r.chance(1, 2) { min } else { self.expr(depth - 1, allow_vars) };
+            let r = match self.r.below(3) {
+                0 => GExpr::Un("neg", Box::new(GExpr::Num(1))),
+                1 => GExpr::Num(0),
+                _ => self.expr(depth - 1, allow_vars),
+            };
+            return GExpr::Bin(o, Box::new(l), Box::new(r));
         }
         let mut o = self.r.pick(BINOPS).0;
         if (o == "div" || o == "rem") && (self.r.below(100) as u32) >= self.p.p_div * 4 {
@@ -1001,6 +1013,12 @@ pub fn gen_case(r: &mut Prng, p: &Profile) -> Case {
         let default = if r.chance(1, 3) { None } else { Some(r.below(2) as i64) };
         sigs.push(SigSpec { name, bits: *r.pick(p.widths), dir: Dir::Bidir, default });
     }
+    if n_bi > 0 && r.chance(1, 10) {
+        // an input that is literally called `<bidirectional>_out`: its column is an input column and the
+        // expected column of the bidirectional signal at the same time
+        let b = sigs.iter().find(|s| s.dir == Dir::Bidir).unwrap().name.clone();
+        sigs.push(SigSpec { name: format!("{b}_out"), bits: *r.pick(p.widths), dir: Dir::In, default: Some(0) });
+    }
     r.shuffle(&mut sigs);
 
     // virtual signals to declare
@@ -1026,8 +1044,10 @@ pub fn gen_case(r: &mut Prng, p: &Profile) -> Case {
                 if !omit {
                     cols.push((s.name.clone(), true, s.bits));
                 }
-                if !((r.below(100) as u32) < p.p_omit) {
-                    cols.push((format!("{}_out", s.name), false, s.bits));
+                let out_name = format!("{}_out", s.name);
+                let shared = sigs.iter().any(|x| x.name == out_name);
+                if !shared && !((r.below(100) as u32) < p.p_omit) {
+                    cols.push((out_name, false, s.bits));
                 }
             }
         }
